@@ -19,12 +19,15 @@ for k in K:
 seeded = sorted((R / "seeded").glob("*/meta.json")) if (R / "seeded").exists() else []
 out.append((R / "docs/design_part1_c.md").read_text())
 if seeded:
-    tbl = "\n| seeded change | property | what it needs to manifest | confirmed | caught by (quick tier) |\n|---|---|---|---|---|\n"
+    def verdicts(c):
+        return "; ".join(f"{p}: {'+'.join(v['by']) if v['caught'] else 'MISSED'}" for p, v in (c or {}).items()) or "-"
+    tbl = "\n| seeded change | round | what it needs to manifest | confirmed | quick check before strengthening | after |\n|---|---|---|---|---|---|\n"
     for m in seeded:
         d = json.loads(m.read_text())
-        c = d.get("checks", {})
-        caught = "; ".join(f"{p}: {'+'.join(v['by']) if v['caught'] else ('exit ' + str(v['exit']) + ' MISSED')}" for p, v in c.items())
-        tbl += f"| {d['id']} | {d['property']} | {d.get('needs', '').replace('|', '/')} | {'yes' if d.get('confirmed') else 'no'} | {caught} |\n"
+        rnd = d.get("round", 2 if d["id"].startswith("seed2") else 1)
+        before = d.get("checks_initial") or d.get("checks")
+        tbl += (f"| {d['id']} | {rnd} | {d.get('needs', '').replace('|', '/')} | {'yes' if d.get('confirmed') else 'no'} | "
+                f"{verdicts(before)} | {verdicts(d.get('checks'))} |\n")
     out.append(tbl)
 out.append((R / "docs/design_part1_d.md").read_text() if (R / "docs/design_part1_d.md").exists() else "")
 out.append("\n---------------------------------------------------------------------------\n\n# Part II — original design (written before the build; superseded by Part I where they differ)\n\n")
